@@ -111,3 +111,14 @@ def run(pid, tier, seed, args):
     return run_specs(pid, tier, seed, args, [("c13", spec, spec.depth, 60 if tier == "quick" else 1200),
                                              ("c13-restart", spec2, spec2.depth, 40 if tier == "quick" else 600)], rule=RULE,
                      extra_cov=cov, extra_viols=viols, extra_samples=[{"timed_scenario": samples[1]}])
+
+
+def replay(path):
+    import json
+    from .. import runner
+    with open(path) as f:
+        rp = json.load(f)
+    if isinstance(rp.get("history"), dict):
+        return scen.replay_scenario(path, timed.TimedMon, "C13")
+    import sys
+    return runner.generic_replay(sys.modules[__name__], "C13", path)
